@@ -5,6 +5,7 @@ import Driver.MA
 import Driver.PV
 import Driver.FQ
 import Driver.CO
+import Driver.LT
 /-!
 Line-protocol driver: one operation per input line, one observation per output line:
 `<model observation>\t<spec observation>`.  First token selects the component.
@@ -19,6 +20,7 @@ structure All where
   pv : PV.St := {}
   fq : FQ.St := {}
   co : CO.St := {}
+  lt : LT.St := {}
 
 def stepAll (s : All) (line : String) : All × String :=
   match (line.trimAscii.toString.splitOn " ").filter (· ≠ "") with
@@ -43,6 +45,9 @@ def stepAll (s : All) (line : String) : All × String :=
   | "co" :: args =>
       let (c, a, b) := CO.step s.co args
       ({ s with co := c }, a ++ "\t" ++ b)
+  | "lt" :: args =>
+      let (c, a, b) := LT.step s.lt args
+      ({ s with lt := c }, a ++ "\t" ++ b)
   | [] => (s, "")
   | _ => (s, "bad-component\tbad-component")
 
